@@ -17,6 +17,10 @@ Definition sumr {A} (g : A -> Q) (l : list A) : Q := fold_right (fun a acc => Qr
 
 Definition sqrt_k : positive := 1125899906842624.   (* 2^50: absolute precision of the enclosure *)
 
+(* upper end of the enclosure, exact when the argument is a perfect square at this precision *)
+Definition sqrt_hi_tight (x : Q) : Q :=
+  let lo := sqrt_lo sqrt_k x in if Qeq_bool (lo * lo) x then lo else sqrt_hi sqrt_k x.
+
 (* pw : list of (point, weight) for the retained points; weighted = were weights supplied *)
 Definition stat2_encl (st : stat) (weighted : bool) (f : fitp) (pw : list (pt4 * Q)) : Q * Q :=
   let W := sumr snd pw in
@@ -24,7 +28,7 @@ Definition stat2_encl (st : stat) (weighted : bool) (f : fitp) (pw : list (pt4 *
   | SRmse => let v := Qred (sumr (fun a => snd a * r2 f (fst a)) pw / W) in (v, v)
   | SMae =>
       let lo := Qred (sumr (fun a => snd a * sqrt_lo sqrt_k (r2 f (fst a))) pw / W) in
-      let hi := Qred (sumr (fun a => snd a * sqrt_hi sqrt_k (r2 f (fst a))) pw / W) in
+      let hi := Qred (sumr (fun a => snd a * sqrt_hi_tight (r2 f (fst a))) pw / W) in
       (Qred (lo * lo), Qred (hi * hi))
   | SStd =>
       if weighted && Nat.eqb (length pw) 1 then (0, 0) else
@@ -39,10 +43,12 @@ Definition stat2_encl (st : stat) (weighted : bool) (f : fitp) (pw : list (pt4 *
 
 Definition rel20 : Q := 1 + (1 # 1048576).
 
-(* (sure-below, not-sure-above) for every point *)
-Definition below_masks (f : fitp) (c2 : Q * Q) (eps2 : Q) (pts : list pt4) : list bool * list bool :=
-  (map (fun p => Qltb (r2 f p * rel20 + eps2) (fst c2)) pts,
-   map (fun p => negb (Qltb (snd c2 * rel20 + eps2) (r2 f p))) pts).
+(* (sure-below, not-sure-above) for every point; the band is (rel - 1) relative plus eps2 absolute.
+   With rel = 1 and eps2 = 0 (used only for inputs on which the float computation is exact) the decision is
+   the exact strict comparison |r|^2 < cutoff^2. *)
+Definition below_masks (f : fitp) (c2 : Q * Q) (rel eps2 : Q) (pts : list pt4) : list bool * list bool :=
+  (map (fun p => Qltb (r2 f p * rel + eps2) (fst c2)) pts,
+   map (fun p => Qltb (r2 f p) (snd c2 * rel + eps2)) pts).
 
 Fixpoint between (a m b : list bool) : bool :=
   match a, m, b with
@@ -59,13 +65,13 @@ Fixpoint decided_diff (lo hi m : list bool) : bool :=
 Inductive verdict := SureStop | SureGo | Undecided.
 
 (* one clipping iteration from the state (mask m, fit f), three-valued *)
-Definition clip_step3 (minobj : nat) (accum weighted : bool) (st : stat) (nsig eps2 : Q)
+Definition clip_step3 (minobj : nat) (accum weighted : bool) (st : stat) (nsig rel eps2 : Q)
            (pts : list pt4) (w : list Q) (wm m : list bool) (f : fitp) : verdict * list bool * list bool :=
   let pw := filt m (combine pts w) in
   let s2 := stat2_encl st weighted f pw in
   let c2 := (Qred (nsig * nsig * fst s2), Qred (nsig * nsig * snd s2)) in
   let tested := if accum then m else wm in
-  let bm := below_masks f c2 eps2 pts in
+  let bm := below_masks f c2 rel eps2 pts in
   let nlo := mand tested (fst bm) in
   let nhi := mand tested (snd bm) in
   let v := if (count nhi <? minobj)%nat || (meqb nlo m && meqb nhi m) then SureStop
